@@ -252,6 +252,10 @@ StringDictionaryHASHHF::StringDictionaryHASHHF(IteratorDictString *it, uint len,
   hash->finish(bytesStrings);
 
   delete builder;
+
+  // The coder also needs the table for decoding purposes
+  delete coder;
+  coder = new StatCoder(table, codewords);
 }
 
 unsigned long StringDictionaryHASHHF::locate(uchar *str, uint strLen) {
